@@ -180,6 +180,10 @@ ArithResult(c) ==
     IN CASE c.o \in {"add", "sub", "mul", "div"} -> [e \in 1..d |-> OpV(c.o, x[e], y[e])]
          [] c.o = "scale" -> [e \in 1..d |-> MulV(x[e], c.k)]
          [] c.o = "dot"   -> <<Wrap(SumRaw([e \in 1..d |-> MulRaw(x[e], y[e])], 0), 16)>>
+         \* the constant constructors: neutral elements of + and *, and the all-NaN tuple
+         [] c.o = "origin" -> [e \in 1..d |-> <<0, 1>>]
+         [] c.o = "ones"   -> [e \in 1..d |-> <<1, 1>>]
+         [] c.o = "nan"    -> [e \in 1..d |-> NaN]
 
 Compute == /\ mode = "arith" /\ hist = <<>>
            /\ hist' = <<[op |-> kind, reads |-> ArithResult(kind)]>>
@@ -271,6 +275,9 @@ ArithInv == (mode = "arith" /\ hist # <<>>) =>
        /\ c.o = "div" => \A e \in 1..Len(x) :
                (Finite(x[e]) /\ Finite(y[e]) /\ y[e] # 0) => r[e][1] * y[e] = x[e] * r[e][2]  \* (x / y) * y = x
        /\ c.o = "scale" => r = ArithResult([c EXCEPT !.o = "mul", !.y = [e \in 1..5 |-> c.k]])
+       /\ c.o = "origin" => \A e \in 1..Len(x) : Finite(x[e]) => AddRaw(x[e], r[e][1]) = x[e]   \* x + origin = x
+       /\ c.o = "ones" => \A e \in 1..Len(x) : Finite(x[e]) => MulRaw(x[e], r[e][1]) = x[e] * r[e][2]  \* x * ones = x
+       /\ c.o = "nan" => \A e \in 1..Len(x) : AddRaw(x[e], r[e]) = NaN /\ MulRaw(x[e], r[e]) = NaN
        /\ \A e \in 1..Len(r) : (r[e] = NaN) \/ IsInf(r[e]) \/ (r[e][2] # 0)
 
 TypeOK == /\ mode \in {"set", "tup", "arith"}
